@@ -33,6 +33,7 @@ type SolverStats struct {
 	Unknown  int64
 	Nanos    int64
 	CacheHit int64
+	ByCvc5Int int64
 }
 
 var globalStats SolverStats
@@ -45,6 +46,7 @@ type Solver struct {
 	Kind  string // z3, z3-new, cvc5
 	alive bool
 	needPop bool
+	dirty   bool // base level holds assertions of a reset-mode query
 	Local SolverStats
 }
 
@@ -79,6 +81,7 @@ func (s *Solver) start() {
 	s.out = bufio.NewReaderSize(out, 1<<20)
 	s.alive = true
 	s.needPop = false
+	s.dirty = false
 	if s.Kind == "z3" || s.Kind == "z3-new" {
 		io.WriteString(s.in, "(set-option :produce-models true)\n")
 	}
@@ -105,12 +108,13 @@ func (s *Solver) readSexp(deadline time.Time) (string, error) {
 		err error
 	}
 	ch := make(chan res, 1)
+	out := s.out // capture: a leaked reader must never touch the stream of a restarted process
 	go func() {
 		var sb strings.Builder
 		depth := 0
 		started := false
 		for {
-			line, err := s.out.ReadString('\n')
+			line, err := out.ReadString('\n')
 			if err != nil {
 				ch <- res{sb.String(), err}
 				return
@@ -153,7 +157,7 @@ func (s *Solver) readSexp(deadline time.Time) (string, error) {
 // (given as strings) are returned in order.
 func (s *Solver) Check(script string, timeoutMs int, wantVals []string) (SatResult, []uint64, string) {
 	// easy queries are much cheaper in z3's incremental mode (push/pop); hard ones in the tactic mode after (reset)
-	if s.Kind == "z3" && timeoutMs > 400 {
+	if (s.Kind == "z3" || s.Kind == "z3-new") && timeoutMs > 400 && os.Getenv("GOSMT_NOINC") == "" {
 		r, v, m := s.check(script, 250, wantVals, true)
 		if r != Unknown {
 			return r, v, m
@@ -162,13 +166,67 @@ func (s *Solver) Check(script string, timeoutMs int, wantVals []string) (SatResu
 		atomic.AddInt64(&globalStats.Unknown, -1)
 		atomic.AddInt64(&globalStats.Queries, -1)
 	}
+	// arithmetic-heavy queries (index/length reasoning) that stall bit-blasting are often immediate for
+	// cvc5's integer encoding of bit-vectors (mod-2^k semantics kept): short one-shot attempt
+	if timeoutMs > 400 && os.Getenv("GOSMT_NOCVC5") == "" && !strings.Contains(script, "; symshift") {
+		if r, v, ok := cvc5IntShot(script, wantVals, 1500); ok {
+			atomic.AddInt64(&globalStats.Queries, 1)
+			atomic.AddInt64(&globalStats.ByCvc5Int, 1)
+			s.Local.Queries++
+			s.count(r)
+			return r, v, ""
+		}
+	}
 	return s.check(script, timeoutMs, wantVals, false)
+}
+
+// cvc5IntShot runs one query in a fresh cvc5 process with --solve-bv-as-int=sum.
+func cvc5IntShot(script string, wantVals []string, timeoutMs int) (SatResult, []uint64, bool) {
+	t0 := time.Now()
+	defer func() { atomic.AddInt64(&globalStats.Nanos, time.Since(t0).Nanoseconds()) }()
+	var sb strings.Builder
+	sb.WriteString("(set-option :produce-models true)\n(set-logic ALL)\n")
+	sb.WriteString(script)
+	sb.WriteString("(check-sat)\n")
+	if len(wantVals) > 0 {
+		sb.WriteString("(get-value (" + strings.Join(wantVals, " ") + "))\n")
+	}
+	cmd := exec.Command("cvc5", "--lang=smt2", "--solve-bv-as-int=sum", fmt.Sprintf("--tlimit=%d", timeoutMs))
+	cmd.Stdin = strings.NewReader(sb.String())
+	out, _ := cmd.Output()
+	o := strings.TrimSpace(string(out))
+	if strings.HasPrefix(o, "unsat") {
+		// (the trailing get-value then yields an error line, which is expected)
+		if strings.Count(o, "(error") > 1 || (len(wantVals) == 0 && strings.Contains(o, "(error")) {
+			return Unknown, nil, false
+		}
+		return Unsat, nil, true
+	}
+	if strings.Contains(o, "(error") {
+		return Unknown, nil, false
+	}
+	if strings.HasPrefix(o, "sat") {
+		if len(wantVals) == 0 {
+			return Sat, nil, true
+		}
+		rest := strings.TrimSpace(o[3:])
+		vs, err := parseGetValue(rest, len(wantVals))
+		if err != nil {
+			return Unknown, nil, false
+		}
+		return Sat, vs, true
+	}
+	return Unknown, nil, false
 }
 
 func (s *Solver) check(script string, timeoutMs int, wantVals []string, incremental bool) (SatResult, []uint64, string) {
 	s.mu.Lock()
 	defer s.mu.Unlock()
 	t0 := time.Now()
+	if os.Getenv("GOSMT_TIMELOG") != "" {
+		fmt.Fprintf(os.Stderr, "CHECK start inc=%v timeout=%d size=%d\n", incremental, timeoutMs, len(script))
+		defer func() { fmt.Fprintf(os.Stderr, "CHECK end %.3fs\n", time.Since(t0).Seconds()) }()
+	}
 	defer func() {
 		d := time.Since(t0).Nanoseconds()
 		atomic.AddInt64(&globalStats.Nanos, d)
@@ -183,6 +241,11 @@ func (s *Solver) check(script string, timeoutMs int, wantVals []string, incremen
 	switch s.Kind {
 	case "z3", "z3-new":
 		if incremental {
+			if s.dirty {
+				pre = "(reset)\n(set-option :produce-models true)\n"
+				s.dirty = false
+				s.needPop = false
+			}
 			if s.needPop {
 				pre = "(pop 1)\n"
 			}
@@ -191,17 +254,27 @@ func (s *Solver) check(script string, timeoutMs int, wantVals []string, incremen
 		} else {
 			pre = fmt.Sprintf("(reset)\n(set-option :timeout %d)\n(set-option :produce-models true)\n", timeoutMs)
 			s.needPop = false
+			s.dirty = true
 		}
 	case "cvc5":
 		pre = fmt.Sprintf("(reset)\n(set-option :tlimit-per %d)\n(set-option :produce-models true)\n(set-logic ALL)\n", timeoutMs)
 	}
 	full := pre + script + "(check-sat)\n"
+	if tl := os.Getenv("GOSMT_TRACE"); tl != "" {
+		f, _ := os.OpenFile(tl, os.O_APPEND|os.O_CREATE|os.O_WRONLY, 0o644)
+		f.WriteString(full)
+		f.Close()
+	}
 	if _, err := io.WriteString(s.in, full); err != nil {
 		s.restart()
 		s.count(Unknown)
 		return Unknown, nil, "write error: " + err.Error()
 	}
-	deadline := time.Now().Add(time.Duration(timeoutMs)*time.Millisecond + 20*time.Second)
+	slack := 5 * time.Second
+	if incremental {
+		slack = 1500 * time.Millisecond
+	}
+	deadline := time.Now().Add(time.Duration(timeoutMs)*time.Millisecond + slack)
 	var ans string
 	for {
 		line, err := s.readSexp(deadline)
@@ -211,6 +284,11 @@ func (s *Solver) check(script string, timeoutMs int, wantVals []string, incremen
 			return Unknown, nil, "solver died/timeout: " + err.Error()
 		}
 		l := strings.TrimSpace(line)
+		if tl := os.Getenv("GOSMT_TRACE"); tl != "" {
+			f, _ := os.OpenFile(tl, os.O_APPEND|os.O_CREATE|os.O_WRONLY, 0o644)
+			f.WriteString("; RESP: " + l + "\n")
+			f.Close()
+		}
 		if l == "" || l == "success" {
 			continue
 		}
